@@ -284,7 +284,7 @@ template <class V> static void vecalgo (int k, const char* vn)
     std::string st = std::string ("vecalgo.") + vn;
     if (!R ().stage (st)) return;
     uint64_t N = ex::ipow (b, n);
-    ll cases = 0, par = 0, orth = 0, gen = 0;
+    ll cases = 0, par = 0, orth = 0, gen = 0, scaled = 0;
     for (uint64_t i = 0; i < N; ++i)
         for (uint64_t j = 0; j < N; ++j)
         {
@@ -296,8 +296,38 @@ template <class V> static void vecalgo (int k, const char* vn)
             if (ss == 0) continue;
             ++cases;
             std::string in = std::string (vn) + " s=" + std::to_string (i) + " t=" + std::to_string (j) + " (base-" + std::to_string (b) + " digits, offset -" + std::to_string (k) + ")";
-            V p = project (sv, tv), o = orthogonal (sv, tv);
             LD tol = 8 * e * (LD) (t1 + 1), osd = 0, len2 = 0;
+            // project / orthogonal do not depend on the magnitude of s, reflect(s,t) not on that of t: repeat with the
+            // "onto" vector scaled by powers of two down to where its squared length underflows to zero / is subnormal
+            // and up to where it is huge (exact scalings; the expected values are unchanged)
+            {
+                const bool dbl = std::numeric_limits<T>::digits > 30;
+                const int  SC[3] = {dbl ? -540 : -70, dbl ? -600 : -100, dbl ? 500 : 60};
+                for (int q = 0; q < 3; ++q)
+                {
+                    V ss2, ts2;
+                    for (unsigned c = 0; c < n; ++c) { ss2[c] = (T) std::ldexp ((double) si[c], SC[q]); ts2[c] = (T) std::ldexp ((double) ti[c], SC[q]); }
+                    V p2 = project (ss2, tv), o2 = orthogonal (ss2, tv);
+                    for (unsigned c = 0; c < n; ++c)
+                    {
+                        LD wp = (LD) (stt * si[c]) / ss;
+                        if (!(fabsl ((LD) p2[c] - wp) <= tol)) { R ().fail (std::string ("project.scaled-s.") + vn, in + " s*2^" + std::to_string (SC[q]), s (wp), fmt (p2[c])); break; }
+                        if (!(fabsl ((LD) o2[c] - (ti[c] - wp)) <= tol)) { R ().fail (std::string ("orthogonal.scaled-s.") + vn, in + " s*2^" + std::to_string (SC[q]), s (ti[c] - wp), fmt (o2[c])); break; }
+                    }
+                    if (tt != 0)
+                    {
+                        V r2 = reflect (sv, ts2);
+                        LD tolr2 = 8 * e * (LD) (s1 + 1);
+                        for (unsigned c = 0; c < n; ++c)
+                        {
+                            LD wr = (LD) (2 * stt * ti[c]) / tt - si[c];
+                            if (!(fabsl ((LD) r2[c] - wr) <= tolr2)) { R ().fail (std::string ("reflect.scaled-t.") + vn, in + " t*2^" + std::to_string (SC[q]), s (wr), fmt (r2[c])); break; }
+                        }
+                    }
+                    ++scaled;
+                }
+            }
+            V p = project (sv, tv), o = orthogonal (sv, tv);
             for (unsigned c = 0; c < n; ++c)
             {
                 LD wp = (LD) (stt * si[c]) / ss;
@@ -322,6 +352,7 @@ template <class V> static void vecalgo (int k, const char* vn)
         }
     R ().add ("states", cases); R ().add ("evaluations", cases); R ().add ("transitions", cases * 4);
     R ().cls ("vecalgo.t-orthogonal-to-s", orth); R ().cls ("vecalgo.t-parallel-to-s", par); R ().cls ("vecalgo.generic", gen);
+    R ().cls ("vecalgo.onto-vector-scaled-2^k(squares underflow / huge)", scaled);
     R ().stage_done ("all ordered pairs (s != 0, t) of L(" + std::to_string (k) + ")^" + std::to_string (n));
 }
 
